@@ -139,6 +139,17 @@ def step (st : St) (line : String) : IO St := do
       else IO.println s!"ORACLE C19 source term {cls} (tuple {key}) does not equal -div(alpha grad u) + beta u of the selected exact solution, coefficients and geometry: {whereAt}"
       st := { st with oracleFails := st.oracleFails + 1 }
     return st
+  | "HIST" :: rest =>
+    -- the input functions are functions of (own parameters, point): several objects of one class alive at once, evaluated alone,
+    -- interleaved at the same points and alone again, must return bit-identical values
+    let st ← closeTuple st
+    let stats ← check st.stats true fun _ => ""
+    let mut st := { st with stats := { stats with cases := stats.cases + 1 } }
+    IO.println s!"SIG hist problem={(kv rest "problem").getD ""} geometry={(kv rest "geometry").getD ""} alpha={(kv rest "alpha").getD ""} beta={(kv rest "beta").getD ""}"
+    if (kv rest "differing") != some "0" then
+      IO.println s!"ORACLE C19 an input function returns different values for the same object and point depending on what was evaluated before (objects of one class with parameters {(kv rest "objects").getD ""} alive together; {(kv rest "differing").getD "?"} of {(kv rest "values").getD "?"} values differ; first: {(kv rest "first").getD ""}): problem={(kv rest "problem").getD ""} geometry={(kv rest "geometry").getD ""} alpha={(kv rest "alpha").getD ""} beta={(kv rest "beta").getD ""}"
+      st := { st with oracleFails := st.oracleFails + 1 }
+    return st
   | "NOTUP" :: _ => return st
   | "CULHAM" :: rest =>
     -- Culham: only the consistency of the mapping with its Jacobian is required; theta part exact, r part through the radial tables
